@@ -17,6 +17,7 @@ import (
 	"strings"
 	"testing"
 
+	"github.com/rhysd/actionlint/verifshim/vexec"
 	"github.com/rhysd/actionlint/verifshim/vsched"
 )
 
@@ -50,6 +51,9 @@ var c09Jobs = []c09Item{
 	{name: "exprrunner", text: "  exprrunner:\n    runs-on: ${{ vars.RUNNER }}\n    defaults:\n      run:\n        shell: sh\n    steps:\n      - run: echo\n      - run: echo\n        shell: cmd\n"},
 	{name: "macrunner", text: "  macrunner:\n    runs-on: macos-latest\n    steps:\n      - run: echo\n        shell: cmd\n      - run: echo\n        shell: sh\n"},
 	{name: "grouprunner", text: "  grouprunner:\n    runs-on:\n      group: mygroup\n    steps:\n      - run: echo\n        shell: powershell\n      - run: echo\n        shell: bash\n"},
+	{name: "bashdefault", text: "  bashdefault:\n    runs-on: ubuntu-latest\n    defaults:\n      run:\n        shell: bash -e {0}\n    steps:\n      - run: echo a\n      - run: print(1)\n        shell: python\n"},
+	{name: "winnoshell", text: "  winnoshell:\n    runs-on: windows-2022\n    steps:\n      - run: echo w\n      - run: echo b\n        shell: bash\n"},
+	{name: "noshell", text: "  noshell:\n    runs-on: ubuntu-latest\n    steps:\n      - run: echo n\n      - run: echo ${{ github.sha }}\n"},
 	{name: "creds", text: "  creds:\n    runs-on: ubuntu-latest\n    container:\n      image: x\n      credentials:\n        username: u\n        password: plain\n    env:\n      'bad name': 1\n    permissions:\n      nosuchscope: read\n    steps:\n      - run: echo '::set-output name=a::b'\n        if: ${{ true }} && false\n"},
 }
 
@@ -206,7 +210,7 @@ func TestVerifC09(t *testing.T) {
 	r.Bounds["step_sequence_length"] = stepLen
 	r.Bounds["expression_sequence_length"] = exprLen
 	r.Bounds["jobs"], r.Bounds["steps"], r.Bounds["expressions"] = len(c09Jobs), len(c09Steps), len(c09Exprs)
-	r.Extra["rule"] = "libraries of 23 jobs, 13 steps and 21 expression strings that write rule state (matrix with .*, shell defaults, runner platform, conflicting labels, duplicate ids, needs, outputs, erroneous items); every sequence without repetition up to the length bound in file order; each item's diagnostics (relative positions) compared with the item alone plus its declared dependencies (needed jobs / earlier id-carrying steps); a slice of job pairs under every single map-order deviation. class = (family, item, has diagnostics); non-trivial = the item has diagnostics"
+	r.Extra["rule"] = "libraries of 26 jobs, 13 steps and 21 expression strings that write rule state (linted with scripted shellcheck / pyflakes enabled; matrix with .*, shell defaults, runner platform, conflicting labels, duplicate ids, needs, outputs, erroneous items); every sequence without repetition up to the length bound in file order; each item's diagnostics (relative positions) compared with the item alone plus its declared dependencies (needed jobs / earlier id-carrying steps); a slice of job pairs under every single map-order deviation. class = (family, item, has diagnostics); non-trivial = the item has diagnostics"
 	r.Extra["assumptions"] = []string{"dependencies of a step are the earlier steps that carry an id (verbatim), of a job its needed jobs; everything else counts as unrelated", "line numbers echoed in messages are compared relative to the item"}
 	families := []*c09Family{
 		{name: "jobs", header: "on: pull_request\njobs:\n", items: c09Jobs},
@@ -255,6 +259,18 @@ func TestVerifC09(t *testing.T) {
 		return
 	}
 
+	// scripted shellcheck / pyflakes (one issue per invocation) so that the default-shell state of
+	// those two rules is observable too; no explorer is attached, the real goroutines run freely
+	vexec.LookPathFn = func(file string) (string, error) { return "/fake/" + file, nil }
+	vexec.Handler = func(name string, args []string) vexec.Outcome {
+		if strings.HasSuffix(name, "pyflakes") {
+			return vexec.Outcome{Stdout: []byte("<stdin>:1:1: 'os' imported but unused\n"), ExitCode: 1}
+		}
+		return vexec.Outcome{Stdout: []byte(`[{"line":2,"column":1,"level":"warning","code":2086,"message":"Double quote."}]`), ExitCode: 1}
+	}
+	defer func() { vexec.LookPathFn, vexec.Handler = nil, nil }()
+	toolOpts := &LinterOptions{Shellcheck: "shellcheck", Pyflakes: "pyflakes"}
+	lint := func(src string) vLintResult { return vLint(src, toolOpts) }
 	aloneCache := map[string][]string{}
 	var idx int64
 	for _, f := range families {
@@ -275,7 +291,7 @@ func TestVerifC09(t *testing.T) {
 			// too (then the reference also lacks it)
 			src, ranges := f.compose(seq)
 			r.Begin(func() string { return fmt.Sprintf("%s sequence %v", f.name, sel) })
-			res := vLint(src, nil)
+			res := lint(src)
 			r.Evaluations++
 			r.Transitions++
 			r.Validated++
@@ -299,7 +315,7 @@ func TestVerifC09(t *testing.T) {
 				if !ok {
 					var ar [][2]int
 					asrc, ar = f.compose(aseq)
-					ares := vLint(asrc, nil)
+					ares := lint(asrc)
 					r.Transitions++
 					want = c09Rel(ares.Errs, ar[pos][0], ar[pos][1], aseq, ar)
 					aloneCache[key] = want
